@@ -6,7 +6,8 @@ package main
 //   segs   the `;`-separated segments of the parameter text, each a hex token (`-` = empty)
 //   decl   hex of the same declaration in RFC 9460 presentation format (what miekg/dns parses),
 //          `-` when the generator has no independent declaration (malformed stream, odd bytes)
-//   expect acc = must be accepted, rej = must be rejected (invalid `mandatory`), - = no expectation
+//   expect acc = must be accepted, rej = must be rejected (invalid `mandatory`, alpn id of length 0
+//          or > 255), - = no expectation
 // impl:     ok:<wire hex>:<text hex|panic>   or   err:<class>
 //
 // Property oracle on the real code (second independent implementation: miekg/dns):
@@ -69,6 +70,8 @@ func c18errClass(err error) string {
 		return "ip6-nocolon"
 	case strings.HasSuffix(m, " is not a parsable IPv6 address"):
 		return "ip6-parse"
+	case strings.HasPrefix(m, "alpn-id ") && strings.HasSuffix(m, " must be 1 to 255 octets long"):
+		return "alpn-len"
 	case strings.HasSuffix(m, ": keys have to be unique"):
 		return "dup-key"
 	case strings.HasSuffix(m, " is mandatory but missing in parameter list"):
@@ -357,6 +360,11 @@ func c18emit(g *gen, w *bufio.Writer, order []int, quoteMode int) {
 			segs = append(segs, "-")
 		}
 	}
+	// empty segments anywhere (leading `;`, `a;;b`, runs of `;`): skipped by FromText since
+	// /repo e9b4da5 (before, everything after the first one was dropped)
+	if g.chance(1, 4) {
+		segs = c18sprinkle(g, segs)
+	}
 	// the declaration in RFC presentation form, in key order (presentation order is free)
 	for k := 0; k < 7; k++ {
 		p, ok := byKey[k]
@@ -375,6 +383,25 @@ func c18emit(g *gen, w *bufio.Writer, order []int, quoteMode int) {
 	fmt.Fprintf(w, "svcb %s %s acc\n", strings.Join(segs, ";"), hexTok([]byte(strings.Join(decls, " "))))
 }
 
+// c18sprinkle inserts 1..3 empty segments at random positions.
+func c18sprinkle(g *gen, segs []string) []string {
+	for r := 1 + g.intn(3); r > 0; r-- {
+		pos := g.intn(len(segs) + 1)
+		segs = append(segs[:pos], append([]string{"-"}, segs[pos:]...)...)
+	}
+	return segs
+}
+
+// c18sprinkleText is c18sprinkle on a `;`-joined text.
+func c18sprinkleText(g *gen, text string) string {
+	parts := strings.Split(text, ";")
+	for r := 1 + g.intn(3); r > 0; r-- {
+		pos := g.intn(len(parts) + 1)
+		parts = append(parts[:pos], append([]string{""}, parts[pos:]...)...)
+	}
+	return strings.Join(parts, ";")
+}
+
 func c18perms(xs []int, f func([]int)) {
 	var rec func(int)
 	rec = func(i int) {
@@ -391,36 +418,20 @@ func c18perms(xs []int, f func([]int)) {
 	rec(0)
 }
 
-// c18defect reports whether the text falls into one of the recorded defect classes of the real
-// code (see the report / known findings); the generator does not emit such cases.
+// c18defect reports whether the text falls into the one recorded defect class of the real code
+// that is still open (C18-ipv6hint-mapped: an IPv4-mapped address in ipv6hint is printed as a
+// dotted quad, which does not parse again; pinned by svcb_test.go); the generator does not emit
+// such cases. Empty segments and alpn ids of length 0 / > 255 were excluded here too until
+// /repo e9b4da5 and 368102c; they are now part of the regular tiers.
 func c18defect(text []byte) bool {
-	segs := bytes.Split(text, []byte(";"))
-	sawEmpty := false
-	for _, s := range segs {
-		if len(s) == 0 {
-			sawEmpty = true
-			continue
-		}
-		if sawEmpty {
-			return true // parameters after an empty segment are dropped
-		}
+	for _, s := range bytes.Split(text, []byte(";")) {
 		kv := bytes.SplitN(s, []byte("="), 2)
-		if len(kv) != 2 {
+		if len(kv) != 2 || string(kv[0]) != "ipv6hint" {
 			continue
 		}
-		v := bytes.Trim(kv[1], `"`)
-		switch string(kv[0]) {
-		case "alpn":
-			for _, id := range bytes.Split(v, []byte("|")) {
-				if len(id) == 0 || len(id) > 255 {
-					return true
-				}
-			}
-		case "ipv6hint":
-			for _, a := range bytes.Split(v, []byte("|")) {
-				if ip := net.ParseIP(string(a)); ip != nil && ip.To4() != nil {
-					return true
-				}
+		for _, a := range bytes.Split(bytes.Trim(kv[1], `"`), []byte("|")) {
+			if ip := net.ParseIP(string(a)); ip != nil && ip.To4() != nil {
+				return true
 			}
 		}
 	}
@@ -441,7 +452,7 @@ func c18emitRaw(w *bufio.Writer, text string, expect string) {
 
 var c18badValues = map[int][]string{
 	0: {"mandatory", "alpn|alpn", "foo", "alpn|foo", "mandatory|foo", "foo|mandatory", "", "|", "alpn|", "ALPN", "key1", "alpn|port|alpn", "alpn,port"},
-	1: {},
+	1: {"", "|", "h2|", "|h2", "h2||h3", "||", `"`, `""`, `h2|"`, `"|h2`, strings.Repeat("a", 256), "h2|" + strings.Repeat("b", 300), strings.Repeat("c", 255) + "|" + strings.Repeat("d", 256), strings.Repeat("e", 512)},
 	2: {"x", "1", `"x"`},
 	3: {"65536", "-1", "+1", "", " 80", "80 ", "0x50", "1e3", "99999999999999999999999", "4_4", "٣"},
 	4: {"1.2.3", "1.2.3.4.5", "256.1.1.1", "01.2.3.4", "1.2.3.04", "1..2.3", ".1.2.3", "1.2.3.", "::1", "2001:db8::1", "1.2.3.4|", "|1.2.3.4", "1.2.3.4,5.6.7.8", "1.2.3.4 ", "a.b.c.d", "1.2.3.4%eth0", "::ffff:1.2.3.4.5", "0x1.2.3.4"},
@@ -455,8 +466,15 @@ func c18gen(g *gen, tier string, w *bufio.Writer) {
 	for _, t := range []string{"", "alpn=h2", `alpn="h2"`, `alpn=""h2""`, "no-default-alpn=", `no-default-alpn=""`, "port=0", "port=65535",
 		"alpn=h2;", "alpn=h2;;", "alpn=h2;;;", `echconfig=""`, "echconfig=AAAA", "echconfig=AA==", "echconfig=AAA=",
 		"alpn=a=b", `alpn=a"b`, `alpn=a"|"b`, "alpn=h2;no-default-alpn=", "mandatory=alpn;alpn=h2", "alpn=h2;mandatory=alpn",
-		"mandatory=port|alpn;alpn=h2;port=1", "ipv4hint=1.2.3.4", "ipv6hint=::1", "ipv6hint=64:ff9b::1.2.3.4"} {
+		"mandatory=port|alpn;alpn=h2;port=1", "ipv4hint=1.2.3.4", "ipv6hint=::1", "ipv6hint=64:ff9b::1.2.3.4",
+		";", ";;", ";alpn=h2", ";;alpn=h2;;", "alpn=h2;;port=443", ";port=1", "mandatory=port;;;port=1", ";alpn=h2;;mandatory=alpn;",
+		"alpn=" + strings.Repeat("a", 255), "alpn=x|" + strings.Repeat("a", 255) + "|y"} {
 		c18emitRaw(w, t, "acc")
+	}
+	for _, t := range []string{";mandatory=mandatory", "alpn=h2;;mandatory=mandatory", ";;mandatory=port", "alpn=h2;;mandatory=port|alpn", "port=1;;port=2",
+		"alpn=h2||h3", "alpn=|h2", "alpn=h2|", `alpn=""`, "alpn=|", "alpn=" + strings.Repeat("a", 256), "alpn=h2|" + strings.Repeat("a", 256) + "|h3",
+		"alpn=" + strings.Repeat("a", 511), "alpn=" + strings.Repeat("a", 512), ";alpn=h2||h3", "port=1;;alpn=" + strings.Repeat("a", 256)} {
+		c18emitRaw(w, t, "rej")
 	}
 	// --- every order
 	all := []int{0, 1, 2, 3, 4, 5, 6}
@@ -575,14 +593,57 @@ func c18gen(g *gen, tier string, w *bufio.Writer) {
 		}
 		pos := g.intn(len(segs) + 1)
 		segs = append(segs[:pos], append([]string{"mandatory=" + m}, segs[pos:]...)...)
-		c18emitRaw(w, strings.Join(segs, ";"), "rej")
+		t := strings.Join(segs, ";")
+		if g.chance(1, 3) {
+			t = c18sprinkleText(g, t) // also behind / between empty segments
+		}
+		c18emitRaw(w, t, "rej")
+	}
+	// --- alpn ids of length 0 or > 255 inside otherwise valid lists: must be rejected
+	// (accepted with a malformed value until /repo 368102c)
+	for i := 0; i < n/4; i++ {
+		o := []int{1}
+		for k := 2; k < 7; k++ {
+			if g.chance(1, 3) {
+				o = append(o, k)
+			}
+		}
+		c18shuffle(g, o)
+		var segs []string
+		for _, k := range o {
+			p := c18value(g, k, o)
+			if k == 1 {
+				ids := strings.Split(p.text, "|")
+				bad := ""
+				switch g.intn(4) {
+				case 0:
+					bad = strings.Repeat("q", 256)
+				case 1:
+					bad = strings.Repeat("r", 257+g.intn(600))
+				}
+				pos := g.intn(len(ids) + 1)
+				ids = append(ids[:pos], append([]string{bad}, ids[pos:]...)...)
+				p.text = strings.Join(ids, "|")
+			}
+			segs = append(segs, c18keys[k]+"="+c18wrap(g, p.text, 2))
+		}
+		t := strings.Join(segs, ";")
+		if g.chance(1, 4) {
+			t = c18sprinkleText(g, t)
+		}
+		c18emitRaw(w, t, "rej")
 	}
 	// --- malformed stream
 	for k, bad := range [][]string{c18badValues[0], c18badValues[1], c18badValues[2], c18badValues[3], c18badValues[4], c18badValues[5], c18badValues[6]} {
 		for _, v := range bad {
 			c18emitRaw(w, c18keys[k]+"="+v, "-")
 			c18emitRaw(w, c18keys[k]+`="`+v+`"`, "-")
+			if k == 1 {
+				c18emitRaw(w, "port=1;;"+c18keys[k]+"="+v+";", "rej")
+				continue
+			}
 			c18emitRaw(w, "alpn=h2;"+c18keys[k]+"="+v+";port=1", "-")
+			c18emitRaw(w, ";;"+c18keys[k]+"="+v+";port=1", "-")
 		}
 	}
 	for _, t := range []string{"alpn", "=", "=h2", "alpn=h2;alpn=h3", "port=1;port=1", "foo=bar", "ALPN=h2", "ech=AAAA", "alpn =h2", " alpn=h2", "key7=x",
@@ -610,6 +671,9 @@ func c18gen(g *gen, tier string, w *bufio.Writer) {
 			segs = append(segs, c18keys[k]+"="+c18wrap(g, p.text, 2))
 		}
 		t := []byte(strings.Join(segs, ";"))
+		if g.chance(1, 5) {
+			t = []byte(c18sprinkleText(g, string(t)))
+		}
 		for r := 1 + g.intn(2); r > 0 && len(t) > 0; r-- {
 			pos := g.intn(len(t))
 			switch g.intn(3) {
